@@ -23,7 +23,7 @@ def build_demo(root, demo, out, extra):
     srcs = sorted(os.path.join(root, 'src', f) for f in os.listdir(os.path.join(root, 'src')) if f.endswith('.c'))
     cc = 'clang' if '--clang' in extra else 'gcc'
     extra = [e for e in extra if e != '--clang']
-    cmd = [cc, '-g', '-O1', '-std=gnu11', '-DPOLYSEED_STATIC', '-I', os.path.join(root, 'include')] + extra + srcs + [demo, '-o', out, '-lutf8proc', '-lpthread']
+    cmd = [cc, '-g', '-O1', '-std=gnu11', '-DPOLYSEED_STATIC', '-I', os.path.join(root, 'include')] + extra + srcs + [demo, '-o', out, '-lutf8proc', '-lpthread']      # flags in `extra` come later and override -O1
     return sh(cmd)
 
 
@@ -38,8 +38,18 @@ def demo_flags(demo_src):
     m = re.search(r'-fsanitize=([a-z,]+)', cmd)
     if m:
         extra += ['-fsanitize=' + m.group(1), '-fno-omit-frame-pointer']
-    for fl in ('-funsigned-char', '-fsigned-char', '-O0', '-O2', '-O3', '-DNDEBUG'):
+    for fl in ('-funsigned-char', '-fsigned-char', '-DNDEBUG'):
         if re.search(r'(?<![\w-])' + re.escape(fl) + r'(?![\w-])', cmd):
+            extra.append(fl)
+    # optimisation level and machine flags exactly as quoted (the last -O wins, as for the compiler)
+    opts = re.findall(r'(?<![\w-])(-O[0-3sz])(?![\w-])', cmd)
+    if opts:
+        extra.append(opts[-1])
+    for fl in re.findall(r'(?<![\w-])(-m(?:arch|tune|cpu)=[\w.-]+|-m(?:avx2?|avx512\w*|popcnt|pclmul|sse[\d.]+|bmi2?|aes|32))(?![\w-])', cmd):
+        if fl not in extra and fl != '-m32':
+            extra.append(fl)
+    for fl in re.findall(r'(?<![\w-])(-DPOLYSEED_\w+)(?![\w-])', cmd):
+        if fl not in extra and fl not in ('-DPOLYSEED_STATIC',):
             extra.append(fl)
     return extra
 
